@@ -437,303 +437,112 @@ registry! {
     c10_bitflip_data_2, "C10", experimental, 8, plain, 1800 => c10::bitflip::<2, 18>(3); // one bit of the data field flipped, payload 2 byte(s)
     c10_bitflip_len_1, "C10", thorough, 8, plain, 1800 => c10::bitflip::<1, 17>(0); // one bit of the len field flipped, payload 1 byte(s)
     c10_bitflip_len_2, "C10", experimental, 8, plain, 1800 => c10::bitflip::<2, 18>(0); // one bit of the len field flipped, payload 2 byte(s)
-    c16_gen_acl_1, "C16", thorough, 64, plain, 1200 => c16::diff(b"ACL", &[A::S(1)]); // ACL with 1 argument(s) of 1 symbolic byte (parser table arity 1)
-    c16_gen_acl_2, "C16", experimental, 64, plain, 1200 => c16::diff(b"ACL", &[A::S(1), A::S(1)]); // ACL with 2 argument(s) of 1 symbolic byte (parser table arity 1)
-    c16_gen_acl_0, "C16", experimental, 64, plain, 1200 => c16::diff(b"ACL", &[]); // ACL with 0 argument(s) of 1 symbolic byte (parser table arity 1)
-    c16_gen_append_2, "C16", thorough, 64, plain, 1200 => c16::diff(b"APPEND", &[A::S(1), A::S(1)]); // APPEND with 2 argument(s) of 1 symbolic byte (parser table arity 2)
-    c16_gen_append_3, "C16", experimental, 64, plain, 1200 => c16::diff(b"APPEND", &[A::S(1), A::S(1), A::S(1)]); // APPEND with 3 argument(s) of 1 symbolic byte (parser table arity 2)
-    c16_gen_append_1, "C16", experimental, 64, plain, 1200 => c16::diff(b"APPEND", &[A::S(1)]); // APPEND with 1 argument(s) of 1 symbolic byte (parser table arity 2)
-    c16_gen_auth_0, "C16", thorough, 64, plain, 1200 => c16::diff(b"AUTH", &[]); // AUTH with 0 argument(s) of 1 symbolic byte (parser table arity 0)
-    c16_gen_auth_1, "C16", experimental, 64, plain, 1200 => c16::diff(b"AUTH", &[A::S(1)]); // AUTH with 1 argument(s) of 1 symbolic byte (parser table arity 0)
-    c16_gen_client_1, "C16", thorough, 64, plain, 1200 => c16::diff(b"CLIENT", &[A::S(1)]); // CLIENT with 1 argument(s) of 1 symbolic byte (parser table arity 1)
-    c16_gen_client_2, "C16", experimental, 64, plain, 1200 => c16::diff(b"CLIENT", &[A::S(1), A::S(1)]); // CLIENT with 2 argument(s) of 1 symbolic byte (parser table arity 1)
-    c16_gen_client_0, "C16", experimental, 64, plain, 1200 => c16::diff(b"CLIENT", &[]); // CLIENT with 0 argument(s) of 1 symbolic byte (parser table arity 1)
-    c16_gen_command_0, "C16", thorough, 64, plain, 1200 => c16::diff(b"COMMAND", &[]); // COMMAND with 0 argument(s) of 1 symbolic byte (parser table arity 0)
-    c16_gen_command_1, "C16", experimental, 64, plain, 1200 => c16::diff(b"COMMAND", &[A::S(1)]); // COMMAND with 1 argument(s) of 1 symbolic byte (parser table arity 0)
-    c16_gen_config_1, "C16", thorough, 64, plain, 1200 => c16::diff(b"CONFIG", &[A::S(1)]); // CONFIG with 1 argument(s) of 1 symbolic byte (parser table arity 1)
-    c16_gen_config_2, "C16", experimental, 64, plain, 1200 => c16::diff(b"CONFIG", &[A::S(1), A::S(1)]); // CONFIG with 2 argument(s) of 1 symbolic byte (parser table arity 1)
-    c16_gen_config_0, "C16", experimental, 64, plain, 1200 => c16::diff(b"CONFIG", &[]); // CONFIG with 0 argument(s) of 1 symbolic byte (parser table arity 1)
-    c16_gen_dbsize_0, "C16", thorough, 64, plain, 1200 => c16::diff(b"DBSIZE", &[]); // DBSIZE with 0 argument(s) of 1 symbolic byte (parser table arity 0)
-    c16_gen_dbsize_1, "C16", experimental, 64, plain, 1200 => c16::diff(b"DBSIZE", &[A::S(1)]); // DBSIZE with 1 argument(s) of 1 symbolic byte (parser table arity 0)
-    c16_gen_debug_1, "C16", experimental, 64, plain, 1200 => c16::diff(b"DEBUG", &[A::S(1)]); // DEBUG with 1 argument(s) of 1 symbolic byte (parser table arity 1)
-    c16_gen_debug_2, "C16", experimental, 64, plain, 1200 => c16::diff(b"DEBUG", &[A::S(1), A::S(1)]); // DEBUG with 2 argument(s) of 1 symbolic byte (parser table arity 1)
-    c16_gen_debug_0, "C16", experimental, 64, plain, 1200 => c16::diff(b"DEBUG", &[]); // DEBUG with 0 argument(s) of 1 symbolic byte (parser table arity 1)
-    c16_gen_decr_1, "C16", thorough, 64, plain, 1200 => c16::diff(b"DECR", &[A::S(1)]); // DECR with 1 argument(s) of 1 symbolic byte (parser table arity 1)
-    c16_gen_decr_2, "C16", experimental, 64, plain, 1200 => c16::diff(b"DECR", &[A::S(1), A::S(1)]); // DECR with 2 argument(s) of 1 symbolic byte (parser table arity 1)
-    c16_gen_decr_0, "C16", experimental, 64, plain, 1200 => c16::diff(b"DECR", &[]); // DECR with 0 argument(s) of 1 symbolic byte (parser table arity 1)
-    c16_gen_decrby_2, "C16", thorough, 64, plain, 1200 => c16::diff(b"DECRBY", &[A::S(1), A::S(1)]); // DECRBY with 2 argument(s) of 1 symbolic byte (parser table arity 2)
-    c16_gen_decrby_3, "C16", experimental, 64, plain, 1200 => c16::diff(b"DECRBY", &[A::S(1), A::S(1), A::S(1)]); // DECRBY with 3 argument(s) of 1 symbolic byte (parser table arity 2)
-    c16_gen_decrby_1, "C16", experimental, 64, plain, 1200 => c16::diff(b"DECRBY", &[A::S(1)]); // DECRBY with 1 argument(s) of 1 symbolic byte (parser table arity 2)
-    c16_gen_del_1, "C16", thorough, 64, plain, 1200 => c16::diff(b"DEL", &[A::S(1)]); // DEL with 1 argument(s) of 1 symbolic byte (parser table arity 1)
-    c16_gen_del_2, "C16", experimental, 64, plain, 1200 => c16::diff(b"DEL", &[A::S(1), A::S(1)]); // DEL with 2 argument(s) of 1 symbolic byte (parser table arity 1)
-    c16_gen_del_0, "C16", experimental, 64, plain, 1200 => c16::diff(b"DEL", &[]); // DEL with 0 argument(s) of 1 symbolic byte (parser table arity 1)
-    c16_gen_discard_0, "C16", thorough, 64, plain, 1200 => c16::diff(b"DISCARD", &[]); // DISCARD with 0 argument(s) of 1 symbolic byte (parser table arity 0)
-    c16_gen_discard_1, "C16", experimental, 64, plain, 1200 => c16::diff(b"DISCARD", &[A::S(1)]); // DISCARD with 1 argument(s) of 1 symbolic byte (parser table arity 0)
-    c16_gen_echo_1, "C16", thorough, 64, plain, 1200 => c16::diff(b"ECHO", &[A::S(1)]); // ECHO with 1 argument(s) of 1 symbolic byte (parser table arity 1)
-    c16_gen_echo_2, "C16", experimental, 64, plain, 1200 => c16::diff(b"ECHO", &[A::S(1), A::S(1)]); // ECHO with 2 argument(s) of 1 symbolic byte (parser table arity 1)
-    c16_gen_echo_0, "C16", experimental, 64, plain, 1200 => c16::diff(b"ECHO", &[]); // ECHO with 0 argument(s) of 1 symbolic byte (parser table arity 1)
-    c16_gen_eval_2, "C16", thorough, 64, plain, 1200 => c16::diff(b"EVAL", &[A::S(1), A::S(1)]); // EVAL with 2 argument(s) of 1 symbolic byte (parser table arity 2)
-    c16_gen_eval_3, "C16", experimental, 64, plain, 1200 => c16::diff(b"EVAL", &[A::S(1), A::S(1), A::S(1)]); // EVAL with 3 argument(s) of 1 symbolic byte (parser table arity 2)
-    c16_gen_eval_1, "C16", experimental, 64, plain, 1200 => c16::diff(b"EVAL", &[A::S(1)]); // EVAL with 1 argument(s) of 1 symbolic byte (parser table arity 2)
-    c16_gen_evalsha_2, "C16", experimental, 64, plain, 1200 => c16::diff(b"EVALSHA", &[A::S(1), A::S(1)]); // EVALSHA with 2 argument(s) of 1 symbolic byte (parser table arity 2)
-    c16_gen_evalsha_3, "C16", experimental, 64, plain, 1200 => c16::diff(b"EVALSHA", &[A::S(1), A::S(1), A::S(1)]); // EVALSHA with 3 argument(s) of 1 symbolic byte (parser table arity 2)
-    c16_gen_evalsha_1, "C16", experimental, 64, plain, 1200 => c16::diff(b"EVALSHA", &[A::S(1)]); // EVALSHA with 1 argument(s) of 1 symbolic byte (parser table arity 2)
-    c16_gen_exec_0, "C16", thorough, 64, plain, 1200 => c16::diff(b"EXEC", &[]); // EXEC with 0 argument(s) of 1 symbolic byte (parser table arity 0)
-    c16_gen_exec_1, "C16", experimental, 64, plain, 1200 => c16::diff(b"EXEC", &[A::S(1)]); // EXEC with 1 argument(s) of 1 symbolic byte (parser table arity 0)
-    c16_gen_exists_1, "C16", thorough, 64, plain, 1200 => c16::diff(b"EXISTS", &[A::S(1)]); // EXISTS with 1 argument(s) of 1 symbolic byte (parser table arity 1)
-    c16_gen_exists_2, "C16", experimental, 64, plain, 1200 => c16::diff(b"EXISTS", &[A::S(1), A::S(1)]); // EXISTS with 2 argument(s) of 1 symbolic byte (parser table arity 1)
-    c16_gen_exists_0, "C16", experimental, 64, plain, 1200 => c16::diff(b"EXISTS", &[]); // EXISTS with 0 argument(s) of 1 symbolic byte (parser table arity 1)
-    c16_gen_expire_2, "C16", quick, 64, plain, 1200 => c16::diff(b"EXPIRE", &[A::S(1), A::S(1)]); // EXPIRE with 2 argument(s) of 1 symbolic byte (parser table arity 2)
-    c16_gen_expire_3, "C16", experimental, 64, plain, 1200 => c16::diff(b"EXPIRE", &[A::S(1), A::S(1), A::S(1)]); // EXPIRE with 3 argument(s) of 1 symbolic byte (parser table arity 2)
-    c16_gen_expire_1, "C16", experimental, 64, plain, 1200 => c16::diff(b"EXPIRE", &[A::S(1)]); // EXPIRE with 1 argument(s) of 1 symbolic byte (parser table arity 2)
-    c16_gen_expireat_2, "C16", thorough, 64, plain, 1200 => c16::diff(b"EXPIREAT", &[A::S(1), A::S(1)]); // EXPIREAT with 2 argument(s) of 1 symbolic byte (parser table arity 2)
-    c16_gen_expireat_3, "C16", experimental, 64, plain, 1200 => c16::diff(b"EXPIREAT", &[A::S(1), A::S(1), A::S(1)]); // EXPIREAT with 3 argument(s) of 1 symbolic byte (parser table arity 2)
-    c16_gen_expireat_1, "C16", experimental, 64, plain, 1200 => c16::diff(b"EXPIREAT", &[A::S(1)]); // EXPIREAT with 1 argument(s) of 1 symbolic byte (parser table arity 2)
-    c16_gen_expiretime_1, "C16", experimental, 64, plain, 1200 => c16::diff(b"EXPIRETIME", &[A::S(1)]); // EXPIRETIME with 1 argument(s) of 1 symbolic byte (parser table arity 1)
-    c16_gen_expiretime_2, "C16", experimental, 64, plain, 1200 => c16::diff(b"EXPIRETIME", &[A::S(1), A::S(1)]); // EXPIRETIME with 2 argument(s) of 1 symbolic byte (parser table arity 1)
-    c16_gen_expiretime_0, "C16", experimental, 64, plain, 1200 => c16::diff(b"EXPIRETIME", &[]); // EXPIRETIME with 0 argument(s) of 1 symbolic byte (parser table arity 1)
-    c16_gen_flushall_0, "C16", thorough, 64, plain, 1200 => c16::diff(b"FLUSHALL", &[]); // FLUSHALL with 0 argument(s) of 1 symbolic byte (parser table arity 0)
-    c16_gen_flushall_1, "C16", experimental, 64, plain, 1200 => c16::diff(b"FLUSHALL", &[A::S(1)]); // FLUSHALL with 1 argument(s) of 1 symbolic byte (parser table arity 0)
-    c16_gen_flushdb_0, "C16", thorough, 64, plain, 1200 => c16::diff(b"FLUSHDB", &[]); // FLUSHDB with 0 argument(s) of 1 symbolic byte (parser table arity 0)
-    c16_gen_flushdb_1, "C16", experimental, 64, plain, 1200 => c16::diff(b"FLUSHDB", &[A::S(1)]); // FLUSHDB with 1 argument(s) of 1 symbolic byte (parser table arity 0)
-    c16_gen_function_1, "C16", thorough, 64, plain, 1200 => c16::diff(b"FUNCTION", &[A::S(1)]); // FUNCTION with 1 argument(s) of 1 symbolic byte (parser table arity 1)
-    c16_gen_function_2, "C16", experimental, 64, plain, 1200 => c16::diff(b"FUNCTION", &[A::S(1), A::S(1)]); // FUNCTION with 2 argument(s) of 1 symbolic byte (parser table arity 1)
-    c16_gen_function_0, "C16", experimental, 64, plain, 1200 => c16::diff(b"FUNCTION", &[]); // FUNCTION with 0 argument(s) of 1 symbolic byte (parser table arity 1)
-    c16_gen_get_1, "C16", quick, 64, plain, 1200 => c16::diff(b"GET", &[A::S(1)]); // GET with 1 argument(s) of 1 symbolic byte (parser table arity 1)
-    c16_gen_get_2, "C16", experimental, 64, plain, 1200 => c16::diff(b"GET", &[A::S(1), A::S(1)]); // GET with 2 argument(s) of 1 symbolic byte (parser table arity 1)
-    c16_gen_get_0, "C16", experimental, 64, plain, 1200 => c16::diff(b"GET", &[]); // GET with 0 argument(s) of 1 symbolic byte (parser table arity 1)
-    c16_gen_getbit_2, "C16", thorough, 64, plain, 1200 => c16::diff(b"GETBIT", &[A::S(1), A::S(1)]); // GETBIT with 2 argument(s) of 1 symbolic byte (parser table arity 2)
-    c16_gen_getbit_3, "C16", experimental, 64, plain, 1200 => c16::diff(b"GETBIT", &[A::S(1), A::S(1), A::S(1)]); // GETBIT with 3 argument(s) of 1 symbolic byte (parser table arity 2)
-    c16_gen_getbit_1, "C16", experimental, 64, plain, 1200 => c16::diff(b"GETBIT", &[A::S(1)]); // GETBIT with 1 argument(s) of 1 symbolic byte (parser table arity 2)
-    c16_gen_getdel_1, "C16", thorough, 64, plain, 1200 => c16::diff(b"GETDEL", &[A::S(1)]); // GETDEL with 1 argument(s) of 1 symbolic byte (parser table arity 1)
-    c16_gen_getdel_2, "C16", experimental, 64, plain, 1200 => c16::diff(b"GETDEL", &[A::S(1), A::S(1)]); // GETDEL with 2 argument(s) of 1 symbolic byte (parser table arity 1)
-    c16_gen_getdel_0, "C16", experimental, 64, plain, 1200 => c16::diff(b"GETDEL", &[]); // GETDEL with 0 argument(s) of 1 symbolic byte (parser table arity 1)
-    c16_gen_getex_1, "C16", thorough, 64, plain, 1200 => c16::diff(b"GETEX", &[A::S(1)]); // GETEX with 1 argument(s) of 1 symbolic byte (parser table arity 1)
-    c16_gen_getex_2, "C16", experimental, 64, plain, 1200 => c16::diff(b"GETEX", &[A::S(1), A::S(1)]); // GETEX with 2 argument(s) of 1 symbolic byte (parser table arity 1)
-    c16_gen_getex_0, "C16", experimental, 64, plain, 1200 => c16::diff(b"GETEX", &[]); // GETEX with 0 argument(s) of 1 symbolic byte (parser table arity 1)
-    c16_gen_getrange_3, "C16", thorough, 64, plain, 1200 => c16::diff(b"GETRANGE", &[A::S(1), A::S(1), A::S(1)]); // GETRANGE with 3 argument(s) of 1 symbolic byte (parser table arity 3)
-    c16_gen_getrange_4, "C16", experimental, 64, plain, 1200 => c16::diff(b"GETRANGE", &[A::S(1), A::S(1), A::S(1), A::S(1)]); // GETRANGE with 4 argument(s) of 1 symbolic byte (parser table arity 3)
-    c16_gen_getrange_2, "C16", experimental, 64, plain, 1200 => c16::diff(b"GETRANGE", &[A::S(1), A::S(1)]); // GETRANGE with 2 argument(s) of 1 symbolic byte (parser table arity 3)
-    c16_gen_getset_2, "C16", thorough, 64, plain, 1200 => c16::diff(b"GETSET", &[A::S(1), A::S(1)]); // GETSET with 2 argument(s) of 1 symbolic byte (parser table arity 2)
-    c16_gen_getset_3, "C16", experimental, 64, plain, 1200 => c16::diff(b"GETSET", &[A::S(1), A::S(1), A::S(1)]); // GETSET with 3 argument(s) of 1 symbolic byte (parser table arity 2)
-    c16_gen_getset_1, "C16", experimental, 64, plain, 1200 => c16::diff(b"GETSET", &[A::S(1)]); // GETSET with 1 argument(s) of 1 symbolic byte (parser table arity 2)
-    c16_gen_hdel_2, "C16", thorough, 64, plain, 1200 => c16::diff(b"HDEL", &[A::S(1), A::S(1)]); // HDEL with 2 argument(s) of 1 symbolic byte (parser table arity 2)
-    c16_gen_hdel_3, "C16", experimental, 64, plain, 1200 => c16::diff(b"HDEL", &[A::S(1), A::S(1), A::S(1)]); // HDEL with 3 argument(s) of 1 symbolic byte (parser table arity 2)
-    c16_gen_hdel_1, "C16", experimental, 64, plain, 1200 => c16::diff(b"HDEL", &[A::S(1)]); // HDEL with 1 argument(s) of 1 symbolic byte (parser table arity 2)
-    c16_gen_hexists_2, "C16", thorough, 64, plain, 1200 => c16::diff(b"HEXISTS", &[A::S(1), A::S(1)]); // HEXISTS with 2 argument(s) of 1 symbolic byte (parser table arity 2)
-    c16_gen_hexists_3, "C16", experimental, 64, plain, 1200 => c16::diff(b"HEXISTS", &[A::S(1), A::S(1), A::S(1)]); // HEXISTS with 3 argument(s) of 1 symbolic byte (parser table arity 2)
-    c16_gen_hexists_1, "C16", experimental, 64, plain, 1200 => c16::diff(b"HEXISTS", &[A::S(1)]); // HEXISTS with 1 argument(s) of 1 symbolic byte (parser table arity 2)
-    c16_gen_hget_2, "C16", thorough, 64, plain, 1200 => c16::diff(b"HGET", &[A::S(1), A::S(1)]); // HGET with 2 argument(s) of 1 symbolic byte (parser table arity 2)
-    c16_gen_hget_3, "C16", experimental, 64, plain, 1200 => c16::diff(b"HGET", &[A::S(1), A::S(1), A::S(1)]); // HGET with 3 argument(s) of 1 symbolic byte (parser table arity 2)
-    c16_gen_hget_1, "C16", experimental, 64, plain, 1200 => c16::diff(b"HGET", &[A::S(1)]); // HGET with 1 argument(s) of 1 symbolic byte (parser table arity 2)
-    c16_gen_hgetall_1, "C16", thorough, 64, plain, 1200 => c16::diff(b"HGETALL", &[A::S(1)]); // HGETALL with 1 argument(s) of 1 symbolic byte (parser table arity 1)
-    c16_gen_hgetall_2, "C16", experimental, 64, plain, 1200 => c16::diff(b"HGETALL", &[A::S(1), A::S(1)]); // HGETALL with 2 argument(s) of 1 symbolic byte (parser table arity 1)
-    c16_gen_hgetall_0, "C16", experimental, 64, plain, 1200 => c16::diff(b"HGETALL", &[]); // HGETALL with 0 argument(s) of 1 symbolic byte (parser table arity 1)
-    c16_gen_hincrby_3, "C16", experimental, 64, plain, 1200 => c16::diff(b"HINCRBY", &[A::S(1), A::S(1), A::S(1)]); // HINCRBY with 3 argument(s) of 1 symbolic byte (parser table arity 3)
-    c16_gen_hincrby_4, "C16", experimental, 64, plain, 1200 => c16::diff(b"HINCRBY", &[A::S(1), A::S(1), A::S(1), A::S(1)]); // HINCRBY with 4 argument(s) of 1 symbolic byte (parser table arity 3)
-    c16_gen_hincrby_2, "C16", experimental, 64, plain, 1200 => c16::diff(b"HINCRBY", &[A::S(1), A::S(1)]); // HINCRBY with 2 argument(s) of 1 symbolic byte (parser table arity 3)
-    c16_gen_hkeys_1, "C16", thorough, 64, plain, 1200 => c16::diff(b"HKEYS", &[A::S(1)]); // HKEYS with 1 argument(s) of 1 symbolic byte (parser table arity 1)
-    c16_gen_hkeys_2, "C16", experimental, 64, plain, 1200 => c16::diff(b"HKEYS", &[A::S(1), A::S(1)]); // HKEYS with 2 argument(s) of 1 symbolic byte (parser table arity 1)
-    c16_gen_hkeys_0, "C16", experimental, 64, plain, 1200 => c16::diff(b"HKEYS", &[]); // HKEYS with 0 argument(s) of 1 symbolic byte (parser table arity 1)
-    c16_gen_hlen_1, "C16", thorough, 64, plain, 1200 => c16::diff(b"HLEN", &[A::S(1)]); // HLEN with 1 argument(s) of 1 symbolic byte (parser table arity 1)
-    c16_gen_hlen_2, "C16", experimental, 64, plain, 1200 => c16::diff(b"HLEN", &[A::S(1), A::S(1)]); // HLEN with 2 argument(s) of 1 symbolic byte (parser table arity 1)
-    c16_gen_hlen_0, "C16", experimental, 64, plain, 1200 => c16::diff(b"HLEN", &[]); // HLEN with 0 argument(s) of 1 symbolic byte (parser table arity 1)
-    c16_gen_hscan_2, "C16", thorough, 64, plain, 1200 => c16::diff(b"HSCAN", &[A::S(1), A::S(1)]); // HSCAN with 2 argument(s) of 1 symbolic byte (parser table arity 2)
-    c16_gen_hscan_3, "C16", experimental, 64, plain, 1200 => c16::diff(b"HSCAN", &[A::S(1), A::S(1), A::S(1)]); // HSCAN with 3 argument(s) of 1 symbolic byte (parser table arity 2)
-    c16_gen_hscan_1, "C16", experimental, 64, plain, 1200 => c16::diff(b"HSCAN", &[A::S(1)]); // HSCAN with 1 argument(s) of 1 symbolic byte (parser table arity 2)
-    c16_gen_hset_3, "C16", thorough, 64, plain, 1200 => c16::diff(b"HSET", &[A::S(1), A::S(1), A::S(1)]); // HSET with 3 argument(s) of 1 symbolic byte (parser table arity 3)
-    c16_gen_hset_4, "C16", experimental, 64, plain, 1200 => c16::diff(b"HSET", &[A::S(1), A::S(1), A::S(1), A::S(1)]); // HSET with 4 argument(s) of 1 symbolic byte (parser table arity 3)
-    c16_gen_hset_2, "C16", experimental, 64, plain, 1200 => c16::diff(b"HSET", &[A::S(1), A::S(1)]); // HSET with 2 argument(s) of 1 symbolic byte (parser table arity 3)
-    c16_gen_hvals_1, "C16", thorough, 64, plain, 1200 => c16::diff(b"HVALS", &[A::S(1)]); // HVALS with 1 argument(s) of 1 symbolic byte (parser table arity 1)
-    c16_gen_hvals_2, "C16", experimental, 64, plain, 1200 => c16::diff(b"HVALS", &[A::S(1), A::S(1)]); // HVALS with 2 argument(s) of 1 symbolic byte (parser table arity 1)
-    c16_gen_hvals_0, "C16", experimental, 64, plain, 1200 => c16::diff(b"HVALS", &[]); // HVALS with 0 argument(s) of 1 symbolic byte (parser table arity 1)
-    c16_gen_incr_1, "C16", thorough, 64, plain, 1200 => c16::diff(b"INCR", &[A::S(1)]); // INCR with 1 argument(s) of 1 symbolic byte (parser table arity 1)
-    c16_gen_incr_2, "C16", experimental, 64, plain, 1200 => c16::diff(b"INCR", &[A::S(1), A::S(1)]); // INCR with 2 argument(s) of 1 symbolic byte (parser table arity 1)
-    c16_gen_incr_0, "C16", experimental, 64, plain, 1200 => c16::diff(b"INCR", &[]); // INCR with 0 argument(s) of 1 symbolic byte (parser table arity 1)
-    c16_gen_incrby_2, "C16", thorough, 64, plain, 1200 => c16::diff(b"INCRBY", &[A::S(1), A::S(1)]); // INCRBY with 2 argument(s) of 1 symbolic byte (parser table arity 2)
-    c16_gen_incrby_3, "C16", experimental, 64, plain, 1200 => c16::diff(b"INCRBY", &[A::S(1), A::S(1), A::S(1)]); // INCRBY with 3 argument(s) of 1 symbolic byte (parser table arity 2)
-    c16_gen_incrby_1, "C16", experimental, 64, plain, 1200 => c16::diff(b"INCRBY", &[A::S(1)]); // INCRBY with 1 argument(s) of 1 symbolic byte (parser table arity 2)
-    c16_gen_incrbyfloat_2, "C16", thorough, 64, plain, 1200 => c16::diff(b"INCRBYFLOAT", &[A::S(1), A::S(1)]); // INCRBYFLOAT with 2 argument(s) of 1 symbolic byte (parser table arity 2)
-    c16_gen_incrbyfloat_3, "C16", experimental, 64, plain, 1200 => c16::diff(b"INCRBYFLOAT", &[A::S(1), A::S(1), A::S(1)]); // INCRBYFLOAT with 3 argument(s) of 1 symbolic byte (parser table arity 2)
-    c16_gen_incrbyfloat_1, "C16", experimental, 64, plain, 1200 => c16::diff(b"INCRBYFLOAT", &[A::S(1)]); // INCRBYFLOAT with 1 argument(s) of 1 symbolic byte (parser table arity 2)
-    c16_gen_info_0, "C16", thorough, 64, plain, 1200 => c16::diff(b"INFO", &[]); // INFO with 0 argument(s) of 1 symbolic byte (parser table arity 0)
-    c16_gen_info_1, "C16", experimental, 64, plain, 1200 => c16::diff(b"INFO", &[A::S(1)]); // INFO with 1 argument(s) of 1 symbolic byte (parser table arity 0)
-    c16_gen_keys_1, "C16", experimental, 64, plain, 1200 => c16::diff(b"KEYS", &[A::S(1)]); // KEYS with 1 argument(s) of 1 symbolic byte (parser table arity 1)
-    c16_gen_keys_2, "C16", experimental, 64, plain, 1200 => c16::diff(b"KEYS", &[A::S(1), A::S(1)]); // KEYS with 2 argument(s) of 1 symbolic byte (parser table arity 1)
-    c16_gen_keys_0, "C16", experimental, 64, plain, 1200 => c16::diff(b"KEYS", &[]); // KEYS with 0 argument(s) of 1 symbolic byte (parser table arity 1)
-    c16_gen_lindex_2, "C16", thorough, 64, plain, 1200 => c16::diff(b"LINDEX", &[A::S(1), A::S(1)]); // LINDEX with 2 argument(s) of 1 symbolic byte (parser table arity 2)
-    c16_gen_lindex_3, "C16", experimental, 64, plain, 1200 => c16::diff(b"LINDEX", &[A::S(1), A::S(1), A::S(1)]); // LINDEX with 3 argument(s) of 1 symbolic byte (parser table arity 2)
-    c16_gen_lindex_1, "C16", experimental, 64, plain, 1200 => c16::diff(b"LINDEX", &[A::S(1)]); // LINDEX with 1 argument(s) of 1 symbolic byte (parser table arity 2)
-    c16_gen_llen_1, "C16", thorough, 64, plain, 1200 => c16::diff(b"LLEN", &[A::S(1)]); // LLEN with 1 argument(s) of 1 symbolic byte (parser table arity 1)
-    c16_gen_llen_2, "C16", experimental, 64, plain, 1200 => c16::diff(b"LLEN", &[A::S(1), A::S(1)]); // LLEN with 2 argument(s) of 1 symbolic byte (parser table arity 1)
-    c16_gen_llen_0, "C16", experimental, 64, plain, 1200 => c16::diff(b"LLEN", &[]); // LLEN with 0 argument(s) of 1 symbolic byte (parser table arity 1)
-    c16_gen_lmove_4, "C16", thorough, 64, plain, 1200 => c16::diff(b"LMOVE", &[A::S(1), A::S(1), A::S(1), A::S(1)]); // LMOVE with 4 argument(s) of 1 symbolic byte (parser table arity 4)
-    c16_gen_lmove_5, "C16", experimental, 64, plain, 1200 => c16::diff(b"LMOVE", &[A::S(1), A::S(1), A::S(1), A::S(1), A::S(1)]); // LMOVE with 5 argument(s) of 1 symbolic byte (parser table arity 4)
-    c16_gen_lmove_3, "C16", experimental, 64, plain, 1200 => c16::diff(b"LMOVE", &[A::S(1), A::S(1), A::S(1)]); // LMOVE with 3 argument(s) of 1 symbolic byte (parser table arity 4)
-    c16_gen_lpop_1, "C16", thorough, 64, plain, 1200 => c16::diff(b"LPOP", &[A::S(1)]); // LPOP with 1 argument(s) of 1 symbolic byte (parser table arity 1)
-    c16_gen_lpop_2, "C16", experimental, 64, plain, 1200 => c16::diff(b"LPOP", &[A::S(1), A::S(1)]); // LPOP with 2 argument(s) of 1 symbolic byte (parser table arity 1)
-    c16_gen_lpop_0, "C16", experimental, 64, plain, 1200 => c16::diff(b"LPOP", &[]); // LPOP with 0 argument(s) of 1 symbolic byte (parser table arity 1)
-    c16_gen_lpush_2, "C16", thorough, 64, plain, 1200 => c16::diff(b"LPUSH", &[A::S(1), A::S(1)]); // LPUSH with 2 argument(s) of 1 symbolic byte (parser table arity 2)
-    c16_gen_lpush_3, "C16", experimental, 64, plain, 1200 => c16::diff(b"LPUSH", &[A::S(1), A::S(1), A::S(1)]); // LPUSH with 3 argument(s) of 1 symbolic byte (parser table arity 2)
-    c16_gen_lpush_1, "C16", experimental, 64, plain, 1200 => c16::diff(b"LPUSH", &[A::S(1)]); // LPUSH with 1 argument(s) of 1 symbolic byte (parser table arity 2)
-    c16_gen_lrange_3, "C16", thorough, 64, plain, 1200 => c16::diff(b"LRANGE", &[A::S(1), A::S(1), A::S(1)]); // LRANGE with 3 argument(s) of 1 symbolic byte (parser table arity 3)
-    c16_gen_lrange_4, "C16", experimental, 64, plain, 1200 => c16::diff(b"LRANGE", &[A::S(1), A::S(1), A::S(1), A::S(1)]); // LRANGE with 4 argument(s) of 1 symbolic byte (parser table arity 3)
-    c16_gen_lrange_2, "C16", experimental, 64, plain, 1200 => c16::diff(b"LRANGE", &[A::S(1), A::S(1)]); // LRANGE with 2 argument(s) of 1 symbolic byte (parser table arity 3)
-    c16_gen_lset_3, "C16", thorough, 64, plain, 1200 => c16::diff(b"LSET", &[A::S(1), A::S(1), A::S(1)]); // LSET with 3 argument(s) of 1 symbolic byte (parser table arity 3)
-    c16_gen_lset_4, "C16", experimental, 64, plain, 1200 => c16::diff(b"LSET", &[A::S(1), A::S(1), A::S(1), A::S(1)]); // LSET with 4 argument(s) of 1 symbolic byte (parser table arity 3)
-    c16_gen_lset_2, "C16", experimental, 64, plain, 1200 => c16::diff(b"LSET", &[A::S(1), A::S(1)]); // LSET with 2 argument(s) of 1 symbolic byte (parser table arity 3)
-    c16_gen_ltrim_3, "C16", thorough, 64, plain, 1200 => c16::diff(b"LTRIM", &[A::S(1), A::S(1), A::S(1)]); // LTRIM with 3 argument(s) of 1 symbolic byte (parser table arity 3)
-    c16_gen_ltrim_4, "C16", experimental, 64, plain, 1200 => c16::diff(b"LTRIM", &[A::S(1), A::S(1), A::S(1), A::S(1)]); // LTRIM with 4 argument(s) of 1 symbolic byte (parser table arity 3)
-    c16_gen_ltrim_2, "C16", experimental, 64, plain, 1200 => c16::diff(b"LTRIM", &[A::S(1), A::S(1)]); // LTRIM with 2 argument(s) of 1 symbolic byte (parser table arity 3)
-    c16_gen_mget_1, "C16", thorough, 64, plain, 1200 => c16::diff(b"MGET", &[A::S(1)]); // MGET with 1 argument(s) of 1 symbolic byte (parser table arity 1)
-    c16_gen_mget_2, "C16", experimental, 64, plain, 1200 => c16::diff(b"MGET", &[A::S(1), A::S(1)]); // MGET with 2 argument(s) of 1 symbolic byte (parser table arity 1)
-    c16_gen_mget_0, "C16", experimental, 64, plain, 1200 => c16::diff(b"MGET", &[]); // MGET with 0 argument(s) of 1 symbolic byte (parser table arity 1)
-    c16_gen_mset_2, "C16", thorough, 64, plain, 1200 => c16::diff(b"MSET", &[A::S(1), A::S(1)]); // MSET with 2 argument(s) of 1 symbolic byte (parser table arity 2)
-    c16_gen_mset_3, "C16", experimental, 64, plain, 1200 => c16::diff(b"MSET", &[A::S(1), A::S(1), A::S(1)]); // MSET with 3 argument(s) of 1 symbolic byte (parser table arity 2)
-    c16_gen_mset_1, "C16", experimental, 64, plain, 1200 => c16::diff(b"MSET", &[A::S(1)]); // MSET with 1 argument(s) of 1 symbolic byte (parser table arity 2)
-    c16_gen_msetnx_2, "C16", thorough, 64, plain, 1200 => c16::diff(b"MSETNX", &[A::S(1), A::S(1)]); // MSETNX with 2 argument(s) of 1 symbolic byte (parser table arity 2)
-    c16_gen_msetnx_3, "C16", experimental, 64, plain, 1200 => c16::diff(b"MSETNX", &[A::S(1), A::S(1), A::S(1)]); // MSETNX with 3 argument(s) of 1 symbolic byte (parser table arity 2)
-    c16_gen_msetnx_1, "C16", experimental, 64, plain, 1200 => c16::diff(b"MSETNX", &[A::S(1)]); // MSETNX with 1 argument(s) of 1 symbolic byte (parser table arity 2)
-    c16_gen_multi_0, "C16", thorough, 64, plain, 1200 => c16::diff(b"MULTI", &[]); // MULTI with 0 argument(s) of 1 symbolic byte (parser table arity 0)
-    c16_gen_multi_1, "C16", experimental, 64, plain, 1200 => c16::diff(b"MULTI", &[A::S(1)]); // MULTI with 1 argument(s) of 1 symbolic byte (parser table arity 0)
-    c16_gen_object_1, "C16", thorough, 64, plain, 1200 => c16::diff(b"OBJECT", &[A::S(1)]); // OBJECT with 1 argument(s) of 1 symbolic byte (parser table arity 1)
-    c16_gen_object_2, "C16", experimental, 64, plain, 1200 => c16::diff(b"OBJECT", &[A::S(1), A::S(1)]); // OBJECT with 2 argument(s) of 1 symbolic byte (parser table arity 1)
-    c16_gen_object_0, "C16", experimental, 64, plain, 1200 => c16::diff(b"OBJECT", &[]); // OBJECT with 0 argument(s) of 1 symbolic byte (parser table arity 1)
-    c16_gen_persist_1, "C16", thorough, 64, plain, 1200 => c16::diff(b"PERSIST", &[A::S(1)]); // PERSIST with 1 argument(s) of 1 symbolic byte (parser table arity 1)
-    c16_gen_persist_2, "C16", experimental, 64, plain, 1200 => c16::diff(b"PERSIST", &[A::S(1), A::S(1)]); // PERSIST with 2 argument(s) of 1 symbolic byte (parser table arity 1)
-    c16_gen_persist_0, "C16", experimental, 64, plain, 1200 => c16::diff(b"PERSIST", &[]); // PERSIST with 0 argument(s) of 1 symbolic byte (parser table arity 1)
-    c16_gen_pexpire_2, "C16", thorough, 64, plain, 1200 => c16::diff(b"PEXPIRE", &[A::S(1), A::S(1)]); // PEXPIRE with 2 argument(s) of 1 symbolic byte (parser table arity 2)
-    c16_gen_pexpire_3, "C16", experimental, 64, plain, 1200 => c16::diff(b"PEXPIRE", &[A::S(1), A::S(1), A::S(1)]); // PEXPIRE with 3 argument(s) of 1 symbolic byte (parser table arity 2)
-    c16_gen_pexpire_1, "C16", experimental, 64, plain, 1200 => c16::diff(b"PEXPIRE", &[A::S(1)]); // PEXPIRE with 1 argument(s) of 1 symbolic byte (parser table arity 2)
-    c16_gen_pexpireat_2, "C16", thorough, 64, plain, 1200 => c16::diff(b"PEXPIREAT", &[A::S(1), A::S(1)]); // PEXPIREAT with 2 argument(s) of 1 symbolic byte (parser table arity 2)
-    c16_gen_pexpireat_3, "C16", experimental, 64, plain, 1200 => c16::diff(b"PEXPIREAT", &[A::S(1), A::S(1), A::S(1)]); // PEXPIREAT with 3 argument(s) of 1 symbolic byte (parser table arity 2)
-    c16_gen_pexpireat_1, "C16", experimental, 64, plain, 1200 => c16::diff(b"PEXPIREAT", &[A::S(1)]); // PEXPIREAT with 1 argument(s) of 1 symbolic byte (parser table arity 2)
-    c16_gen_pexpiretime_1, "C16", thorough, 64, plain, 1200 => c16::diff(b"PEXPIRETIME", &[A::S(1)]); // PEXPIRETIME with 1 argument(s) of 1 symbolic byte (parser table arity 1)
-    c16_gen_pexpiretime_2, "C16", experimental, 64, plain, 1200 => c16::diff(b"PEXPIRETIME", &[A::S(1), A::S(1)]); // PEXPIRETIME with 2 argument(s) of 1 symbolic byte (parser table arity 1)
-    c16_gen_pexpiretime_0, "C16", experimental, 64, plain, 1200 => c16::diff(b"PEXPIRETIME", &[]); // PEXPIRETIME with 0 argument(s) of 1 symbolic byte (parser table arity 1)
-    c16_gen_ping_0, "C16", thorough, 64, plain, 1200 => c16::diff(b"PING", &[]); // PING with 0 argument(s) of 1 symbolic byte (parser table arity 0)
-    c16_gen_ping_1, "C16", experimental, 64, plain, 1200 => c16::diff(b"PING", &[A::S(1)]); // PING with 1 argument(s) of 1 symbolic byte (parser table arity 0)
-    c16_gen_psetex_3, "C16", thorough, 64, plain, 1200 => c16::diff(b"PSETEX", &[A::S(1), A::S(1), A::S(1)]); // PSETEX with 3 argument(s) of 1 symbolic byte (parser table arity 3)
-    c16_gen_psetex_4, "C16", experimental, 64, plain, 1200 => c16::diff(b"PSETEX", &[A::S(1), A::S(1), A::S(1), A::S(1)]); // PSETEX with 4 argument(s) of 1 symbolic byte (parser table arity 3)
-    c16_gen_psetex_2, "C16", experimental, 64, plain, 1200 => c16::diff(b"PSETEX", &[A::S(1), A::S(1)]); // PSETEX with 2 argument(s) of 1 symbolic byte (parser table arity 3)
-    c16_gen_pttl_1, "C16", thorough, 64, plain, 1200 => c16::diff(b"PTTL", &[A::S(1)]); // PTTL with 1 argument(s) of 1 symbolic byte (parser table arity 1)
-    c16_gen_pttl_2, "C16", experimental, 64, plain, 1200 => c16::diff(b"PTTL", &[A::S(1), A::S(1)]); // PTTL with 2 argument(s) of 1 symbolic byte (parser table arity 1)
-    c16_gen_pttl_0, "C16", experimental, 64, plain, 1200 => c16::diff(b"PTTL", &[]); // PTTL with 0 argument(s) of 1 symbolic byte (parser table arity 1)
-    c16_gen_randomkey_0, "C16", thorough, 64, plain, 1200 => c16::diff(b"RANDOMKEY", &[]); // RANDOMKEY with 0 argument(s) of 1 symbolic byte (parser table arity 0)
-    c16_gen_randomkey_1, "C16", experimental, 64, plain, 1200 => c16::diff(b"RANDOMKEY", &[A::S(1)]); // RANDOMKEY with 1 argument(s) of 1 symbolic byte (parser table arity 0)
-    c16_gen_rename_2, "C16", thorough, 64, plain, 1200 => c16::diff(b"RENAME", &[A::S(1), A::S(1)]); // RENAME with 2 argument(s) of 1 symbolic byte (parser table arity 2)
-    c16_gen_rename_3, "C16", experimental, 64, plain, 1200 => c16::diff(b"RENAME", &[A::S(1), A::S(1), A::S(1)]); // RENAME with 3 argument(s) of 1 symbolic byte (parser table arity 2)
-    c16_gen_rename_1, "C16", experimental, 64, plain, 1200 => c16::diff(b"RENAME", &[A::S(1)]); // RENAME with 1 argument(s) of 1 symbolic byte (parser table arity 2)
-    c16_gen_renamenx_2, "C16", thorough, 64, plain, 1200 => c16::diff(b"RENAMENX", &[A::S(1), A::S(1)]); // RENAMENX with 2 argument(s) of 1 symbolic byte (parser table arity 2)
-    c16_gen_renamenx_3, "C16", experimental, 64, plain, 1200 => c16::diff(b"RENAMENX", &[A::S(1), A::S(1), A::S(1)]); // RENAMENX with 3 argument(s) of 1 symbolic byte (parser table arity 2)
-    c16_gen_renamenx_1, "C16", experimental, 64, plain, 1200 => c16::diff(b"RENAMENX", &[A::S(1)]); // RENAMENX with 1 argument(s) of 1 symbolic byte (parser table arity 2)
-    c16_gen_rpop_1, "C16", experimental, 64, plain, 1200 => c16::diff(b"RPOP", &[A::S(1)]); // RPOP with 1 argument(s) of 1 symbolic byte (parser table arity 1)
-    c16_gen_rpop_2, "C16", experimental, 64, plain, 1200 => c16::diff(b"RPOP", &[A::S(1), A::S(1)]); // RPOP with 2 argument(s) of 1 symbolic byte (parser table arity 1)
-    c16_gen_rpop_0, "C16", experimental, 64, plain, 1200 => c16::diff(b"RPOP", &[]); // RPOP with 0 argument(s) of 1 symbolic byte (parser table arity 1)
-    c16_gen_rpoplpush_2, "C16", thorough, 64, plain, 1200 => c16::diff(b"RPOPLPUSH", &[A::S(1), A::S(1)]); // RPOPLPUSH with 2 argument(s) of 1 symbolic byte (parser table arity 2)
-    c16_gen_rpoplpush_3, "C16", experimental, 64, plain, 1200 => c16::diff(b"RPOPLPUSH", &[A::S(1), A::S(1), A::S(1)]); // RPOPLPUSH with 3 argument(s) of 1 symbolic byte (parser table arity 2)
-    c16_gen_rpoplpush_1, "C16", experimental, 64, plain, 1200 => c16::diff(b"RPOPLPUSH", &[A::S(1)]); // RPOPLPUSH with 1 argument(s) of 1 symbolic byte (parser table arity 2)
-    c16_gen_rpush_2, "C16", thorough, 64, plain, 1200 => c16::diff(b"RPUSH", &[A::S(1), A::S(1)]); // RPUSH with 2 argument(s) of 1 symbolic byte (parser table arity 2)
-    c16_gen_rpush_3, "C16", experimental, 64, plain, 1200 => c16::diff(b"RPUSH", &[A::S(1), A::S(1), A::S(1)]); // RPUSH with 3 argument(s) of 1 symbolic byte (parser table arity 2)
-    c16_gen_rpush_1, "C16", experimental, 64, plain, 1200 => c16::diff(b"RPUSH", &[A::S(1)]); // RPUSH with 1 argument(s) of 1 symbolic byte (parser table arity 2)
-    c16_gen_sadd_2, "C16", thorough, 64, plain, 1200 => c16::diff(b"SADD", &[A::S(1), A::S(1)]); // SADD with 2 argument(s) of 1 symbolic byte (parser table arity 2)
-    c16_gen_sadd_3, "C16", experimental, 64, plain, 1200 => c16::diff(b"SADD", &[A::S(1), A::S(1), A::S(1)]); // SADD with 3 argument(s) of 1 symbolic byte (parser table arity 2)
-    c16_gen_sadd_1, "C16", experimental, 64, plain, 1200 => c16::diff(b"SADD", &[A::S(1)]); // SADD with 1 argument(s) of 1 symbolic byte (parser table arity 2)
-    c16_gen_scan_1, "C16", thorough, 64, plain, 1200 => c16::diff(b"SCAN", &[A::S(1)]); // SCAN with 1 argument(s) of 1 symbolic byte (parser table arity 1)
-    c16_gen_scan_2, "C16", experimental, 64, plain, 1200 => c16::diff(b"SCAN", &[A::S(1), A::S(1)]); // SCAN with 2 argument(s) of 1 symbolic byte (parser table arity 1)
-    c16_gen_scan_0, "C16", experimental, 64, plain, 1200 => c16::diff(b"SCAN", &[]); // SCAN with 0 argument(s) of 1 symbolic byte (parser table arity 1)
-    c16_gen_scard_1, "C16", thorough, 64, plain, 1200 => c16::diff(b"SCARD", &[A::S(1)]); // SCARD with 1 argument(s) of 1 symbolic byte (parser table arity 1)
-    c16_gen_scard_2, "C16", experimental, 64, plain, 1200 => c16::diff(b"SCARD", &[A::S(1), A::S(1)]); // SCARD with 2 argument(s) of 1 symbolic byte (parser table arity 1)
-    c16_gen_scard_0, "C16", experimental, 64, plain, 1200 => c16::diff(b"SCARD", &[]); // SCARD with 0 argument(s) of 1 symbolic byte (parser table arity 1)
-    c16_gen_script_1, "C16", thorough, 64, plain, 1200 => c16::diff(b"SCRIPT", &[A::S(1)]); // SCRIPT with 1 argument(s) of 1 symbolic byte (parser table arity 1)
-    c16_gen_script_2, "C16", experimental, 64, plain, 1200 => c16::diff(b"SCRIPT", &[A::S(1), A::S(1)]); // SCRIPT with 2 argument(s) of 1 symbolic byte (parser table arity 1)
-    c16_gen_script_0, "C16", experimental, 64, plain, 1200 => c16::diff(b"SCRIPT", &[]); // SCRIPT with 0 argument(s) of 1 symbolic byte (parser table arity 1)
-    c16_gen_select_1, "C16", thorough, 64, plain, 1200 => c16::diff(b"SELECT", &[A::S(1)]); // SELECT with 1 argument(s) of 1 symbolic byte (parser table arity 1)
-    c16_gen_select_2, "C16", experimental, 64, plain, 1200 => c16::diff(b"SELECT", &[A::S(1), A::S(1)]); // SELECT with 2 argument(s) of 1 symbolic byte (parser table arity 1)
-    c16_gen_select_0, "C16", experimental, 64, plain, 1200 => c16::diff(b"SELECT", &[]); // SELECT with 0 argument(s) of 1 symbolic byte (parser table arity 1)
-    c16_gen_set_2, "C16", thorough, 64, plain, 1200 => c16::diff(b"SET", &[A::S(1), A::S(1)]); // SET with 2 argument(s) of 1 symbolic byte (parser table arity 2)
-    c16_gen_set_3, "C16", experimental, 64, plain, 1200 => c16::diff(b"SET", &[A::S(1), A::S(1), A::S(1)]); // SET with 3 argument(s) of 1 symbolic byte (parser table arity 2)
-    c16_gen_set_1, "C16", experimental, 64, plain, 1200 => c16::diff(b"SET", &[A::S(1)]); // SET with 1 argument(s) of 1 symbolic byte (parser table arity 2)
-    c16_gen_setbit_3, "C16", thorough, 64, plain, 1200 => c16::diff(b"SETBIT", &[A::S(1), A::S(1), A::S(1)]); // SETBIT with 3 argument(s) of 1 symbolic byte (parser table arity 3)
-    c16_gen_setbit_4, "C16", experimental, 64, plain, 1200 => c16::diff(b"SETBIT", &[A::S(1), A::S(1), A::S(1), A::S(1)]); // SETBIT with 4 argument(s) of 1 symbolic byte (parser table arity 3)
-    c16_gen_setbit_2, "C16", experimental, 64, plain, 1200 => c16::diff(b"SETBIT", &[A::S(1), A::S(1)]); // SETBIT with 2 argument(s) of 1 symbolic byte (parser table arity 3)
-    c16_gen_setex_3, "C16", quick, 64, plain, 1200 => c16::diff(b"SETEX", &[A::S(1), A::S(1), A::S(1)]); // SETEX with 3 argument(s) of 1 symbolic byte (parser table arity 3)
-    c16_gen_setex_4, "C16", experimental, 64, plain, 1200 => c16::diff(b"SETEX", &[A::S(1), A::S(1), A::S(1), A::S(1)]); // SETEX with 4 argument(s) of 1 symbolic byte (parser table arity 3)
-    c16_gen_setex_2, "C16", experimental, 64, plain, 1200 => c16::diff(b"SETEX", &[A::S(1), A::S(1)]); // SETEX with 2 argument(s) of 1 symbolic byte (parser table arity 3)
-    c16_gen_setnx_2, "C16", thorough, 64, plain, 1200 => c16::diff(b"SETNX", &[A::S(1), A::S(1)]); // SETNX with 2 argument(s) of 1 symbolic byte (parser table arity 2)
-    c16_gen_setnx_3, "C16", experimental, 64, plain, 1200 => c16::diff(b"SETNX", &[A::S(1), A::S(1), A::S(1)]); // SETNX with 3 argument(s) of 1 symbolic byte (parser table arity 2)
-    c16_gen_setnx_1, "C16", experimental, 64, plain, 1200 => c16::diff(b"SETNX", &[A::S(1)]); // SETNX with 1 argument(s) of 1 symbolic byte (parser table arity 2)
-    c16_gen_setrange_3, "C16", thorough, 64, plain, 1200 => c16::diff(b"SETRANGE", &[A::S(1), A::S(1), A::S(1)]); // SETRANGE with 3 argument(s) of 1 symbolic byte (parser table arity 3)
-    c16_gen_setrange_4, "C16", experimental, 64, plain, 1200 => c16::diff(b"SETRANGE", &[A::S(1), A::S(1), A::S(1), A::S(1)]); // SETRANGE with 4 argument(s) of 1 symbolic byte (parser table arity 3)
-    c16_gen_setrange_2, "C16", experimental, 64, plain, 1200 => c16::diff(b"SETRANGE", &[A::S(1), A::S(1)]); // SETRANGE with 2 argument(s) of 1 symbolic byte (parser table arity 3)
-    c16_gen_sismember_2, "C16", thorough, 64, plain, 1200 => c16::diff(b"SISMEMBER", &[A::S(1), A::S(1)]); // SISMEMBER with 2 argument(s) of 1 symbolic byte (parser table arity 2)
-    c16_gen_sismember_3, "C16", experimental, 64, plain, 1200 => c16::diff(b"SISMEMBER", &[A::S(1), A::S(1), A::S(1)]); // SISMEMBER with 3 argument(s) of 1 symbolic byte (parser table arity 2)
-    c16_gen_sismember_1, "C16", experimental, 64, plain, 1200 => c16::diff(b"SISMEMBER", &[A::S(1)]); // SISMEMBER with 1 argument(s) of 1 symbolic byte (parser table arity 2)
-    c16_gen_smembers_1, "C16", thorough, 64, plain, 1200 => c16::diff(b"SMEMBERS", &[A::S(1)]); // SMEMBERS with 1 argument(s) of 1 symbolic byte (parser table arity 1)
-    c16_gen_smembers_2, "C16", experimental, 64, plain, 1200 => c16::diff(b"SMEMBERS", &[A::S(1), A::S(1)]); // SMEMBERS with 2 argument(s) of 1 symbolic byte (parser table arity 1)
-    c16_gen_smembers_0, "C16", experimental, 64, plain, 1200 => c16::diff(b"SMEMBERS", &[]); // SMEMBERS with 0 argument(s) of 1 symbolic byte (parser table arity 1)
-    c16_gen_sort_1, "C16", thorough, 64, plain, 1200 => c16::diff(b"SORT", &[A::S(1)]); // SORT with 1 argument(s) of 1 symbolic byte (parser table arity 1)
-    c16_gen_sort_2, "C16", experimental, 64, plain, 1200 => c16::diff(b"SORT", &[A::S(1), A::S(1)]); // SORT with 2 argument(s) of 1 symbolic byte (parser table arity 1)
-    c16_gen_sort_0, "C16", experimental, 64, plain, 1200 => c16::diff(b"SORT", &[]); // SORT with 0 argument(s) of 1 symbolic byte (parser table arity 1)
-    c16_gen_spop_1, "C16", thorough, 64, plain, 1200 => c16::diff(b"SPOP", &[A::S(1)]); // SPOP with 1 argument(s) of 1 symbolic byte (parser table arity 1)
-    c16_gen_spop_2, "C16", experimental, 64, plain, 1200 => c16::diff(b"SPOP", &[A::S(1), A::S(1)]); // SPOP with 2 argument(s) of 1 symbolic byte (parser table arity 1)
-    c16_gen_spop_0, "C16", experimental, 64, plain, 1200 => c16::diff(b"SPOP", &[]); // SPOP with 0 argument(s) of 1 symbolic byte (parser table arity 1)
-    c16_gen_srem_2, "C16", thorough, 64, plain, 1200 => c16::diff(b"SREM", &[A::S(1), A::S(1)]); // SREM with 2 argument(s) of 1 symbolic byte (parser table arity 2)
-    c16_gen_srem_3, "C16", experimental, 64, plain, 1200 => c16::diff(b"SREM", &[A::S(1), A::S(1), A::S(1)]); // SREM with 3 argument(s) of 1 symbolic byte (parser table arity 2)
-    c16_gen_srem_1, "C16", experimental, 64, plain, 1200 => c16::diff(b"SREM", &[A::S(1)]); // SREM with 1 argument(s) of 1 symbolic byte (parser table arity 2)
-    c16_gen_strlen_1, "C16", thorough, 64, plain, 1200 => c16::diff(b"STRLEN", &[A::S(1)]); // STRLEN with 1 argument(s) of 1 symbolic byte (parser table arity 1)
-    c16_gen_strlen_2, "C16", experimental, 64, plain, 1200 => c16::diff(b"STRLEN", &[A::S(1), A::S(1)]); // STRLEN with 2 argument(s) of 1 symbolic byte (parser table arity 1)
-    c16_gen_strlen_0, "C16", experimental, 64, plain, 1200 => c16::diff(b"STRLEN", &[]); // STRLEN with 0 argument(s) of 1 symbolic byte (parser table arity 1)
-    c16_gen_substr_3, "C16", thorough, 64, plain, 1200 => c16::diff(b"SUBSTR", &[A::S(1), A::S(1), A::S(1)]); // SUBSTR with 3 argument(s) of 1 symbolic byte (parser table arity 3)
-    c16_gen_substr_4, "C16", experimental, 64, plain, 1200 => c16::diff(b"SUBSTR", &[A::S(1), A::S(1), A::S(1), A::S(1)]); // SUBSTR with 4 argument(s) of 1 symbolic byte (parser table arity 3)
-    c16_gen_substr_2, "C16", experimental, 64, plain, 1200 => c16::diff(b"SUBSTR", &[A::S(1), A::S(1)]); // SUBSTR with 2 argument(s) of 1 symbolic byte (parser table arity 3)
-    c16_gen_time_0, "C16", thorough, 64, plain, 1200 => c16::diff(b"TIME", &[]); // TIME with 0 argument(s) of 1 symbolic byte (parser table arity 0)
-    c16_gen_time_1, "C16", experimental, 64, plain, 1200 => c16::diff(b"TIME", &[A::S(1)]); // TIME with 1 argument(s) of 1 symbolic byte (parser table arity 0)
-    c16_gen_ttl_1, "C16", thorough, 64, plain, 1200 => c16::diff(b"TTL", &[A::S(1)]); // TTL with 1 argument(s) of 1 symbolic byte (parser table arity 1)
-    c16_gen_ttl_2, "C16", experimental, 64, plain, 1200 => c16::diff(b"TTL", &[A::S(1), A::S(1)]); // TTL with 2 argument(s) of 1 symbolic byte (parser table arity 1)
-    c16_gen_ttl_0, "C16", experimental, 64, plain, 1200 => c16::diff(b"TTL", &[]); // TTL with 0 argument(s) of 1 symbolic byte (parser table arity 1)
-    c16_gen_type_1, "C16", thorough, 64, plain, 1200 => c16::diff(b"TYPE", &[A::S(1)]); // TYPE with 1 argument(s) of 1 symbolic byte (parser table arity 1)
-    c16_gen_type_2, "C16", experimental, 64, plain, 1200 => c16::diff(b"TYPE", &[A::S(1), A::S(1)]); // TYPE with 2 argument(s) of 1 symbolic byte (parser table arity 1)
-    c16_gen_type_0, "C16", experimental, 64, plain, 1200 => c16::diff(b"TYPE", &[]); // TYPE with 0 argument(s) of 1 symbolic byte (parser table arity 1)
-    c16_gen_unlink_1, "C16", thorough, 64, plain, 1200 => c16::diff(b"UNLINK", &[A::S(1)]); // UNLINK with 1 argument(s) of 1 symbolic byte (parser table arity 1)
-    c16_gen_unlink_2, "C16", experimental, 64, plain, 1200 => c16::diff(b"UNLINK", &[A::S(1), A::S(1)]); // UNLINK with 2 argument(s) of 1 symbolic byte (parser table arity 1)
-    c16_gen_unlink_0, "C16", experimental, 64, plain, 1200 => c16::diff(b"UNLINK", &[]); // UNLINK with 0 argument(s) of 1 symbolic byte (parser table arity 1)
-    c16_gen_unwatch_0, "C16", thorough, 64, plain, 1200 => c16::diff(b"UNWATCH", &[]); // UNWATCH with 0 argument(s) of 1 symbolic byte (parser table arity 0)
-    c16_gen_unwatch_1, "C16", experimental, 64, plain, 1200 => c16::diff(b"UNWATCH", &[A::S(1)]); // UNWATCH with 1 argument(s) of 1 symbolic byte (parser table arity 0)
-    c16_gen_wait_2, "C16", thorough, 64, plain, 1200 => c16::diff(b"WAIT", &[A::S(1), A::S(1)]); // WAIT with 2 argument(s) of 1 symbolic byte (parser table arity 2)
-    c16_gen_wait_3, "C16", experimental, 64, plain, 1200 => c16::diff(b"WAIT", &[A::S(1), A::S(1), A::S(1)]); // WAIT with 3 argument(s) of 1 symbolic byte (parser table arity 2)
-    c16_gen_wait_1, "C16", experimental, 64, plain, 1200 => c16::diff(b"WAIT", &[A::S(1)]); // WAIT with 1 argument(s) of 1 symbolic byte (parser table arity 2)
-    c16_gen_watch_1, "C16", thorough, 64, plain, 1200 => c16::diff(b"WATCH", &[A::S(1)]); // WATCH with 1 argument(s) of 1 symbolic byte (parser table arity 1)
-    c16_gen_watch_2, "C16", experimental, 64, plain, 1200 => c16::diff(b"WATCH", &[A::S(1), A::S(1)]); // WATCH with 2 argument(s) of 1 symbolic byte (parser table arity 1)
-    c16_gen_watch_0, "C16", experimental, 64, plain, 1200 => c16::diff(b"WATCH", &[]); // WATCH with 0 argument(s) of 1 symbolic byte (parser table arity 1)
-    c16_gen_zadd_3, "C16", thorough, 64, plain, 1200 => c16::diff(b"ZADD", &[A::S(1), A::S(1), A::S(1)]); // ZADD with 3 argument(s) of 1 symbolic byte (parser table arity 3)
-    c16_gen_zadd_4, "C16", experimental, 64, plain, 1200 => c16::diff(b"ZADD", &[A::S(1), A::S(1), A::S(1), A::S(1)]); // ZADD with 4 argument(s) of 1 symbolic byte (parser table arity 3)
-    c16_gen_zadd_2, "C16", experimental, 64, plain, 1200 => c16::diff(b"ZADD", &[A::S(1), A::S(1)]); // ZADD with 2 argument(s) of 1 symbolic byte (parser table arity 3)
-    c16_gen_zcard_1, "C16", thorough, 64, plain, 1200 => c16::diff(b"ZCARD", &[A::S(1)]); // ZCARD with 1 argument(s) of 1 symbolic byte (parser table arity 1)
-    c16_gen_zcard_2, "C16", experimental, 64, plain, 1200 => c16::diff(b"ZCARD", &[A::S(1), A::S(1)]); // ZCARD with 2 argument(s) of 1 symbolic byte (parser table arity 1)
-    c16_gen_zcard_0, "C16", experimental, 64, plain, 1200 => c16::diff(b"ZCARD", &[]); // ZCARD with 0 argument(s) of 1 symbolic byte (parser table arity 1)
-    c16_gen_zcount_3, "C16", thorough, 64, plain, 1200 => c16::diff(b"ZCOUNT", &[A::S(1), A::S(1), A::S(1)]); // ZCOUNT with 3 argument(s) of 1 symbolic byte (parser table arity 3)
-    c16_gen_zcount_4, "C16", experimental, 64, plain, 1200 => c16::diff(b"ZCOUNT", &[A::S(1), A::S(1), A::S(1), A::S(1)]); // ZCOUNT with 4 argument(s) of 1 symbolic byte (parser table arity 3)
-    c16_gen_zcount_2, "C16", experimental, 64, plain, 1200 => c16::diff(b"ZCOUNT", &[A::S(1), A::S(1)]); // ZCOUNT with 2 argument(s) of 1 symbolic byte (parser table arity 3)
-    c16_gen_zrange_3, "C16", thorough, 64, plain, 1200 => c16::diff(b"ZRANGE", &[A::S(1), A::S(1), A::S(1)]); // ZRANGE with 3 argument(s) of 1 symbolic byte (parser table arity 3)
-    c16_gen_zrange_4, "C16", experimental, 64, plain, 1200 => c16::diff(b"ZRANGE", &[A::S(1), A::S(1), A::S(1), A::S(1)]); // ZRANGE with 4 argument(s) of 1 symbolic byte (parser table arity 3)
-    c16_gen_zrange_2, "C16", experimental, 64, plain, 1200 => c16::diff(b"ZRANGE", &[A::S(1), A::S(1)]); // ZRANGE with 2 argument(s) of 1 symbolic byte (parser table arity 3)
-    c16_gen_zrangebyscore_3, "C16", thorough, 64, plain, 1200 => c16::diff(b"ZRANGEBYSCORE", &[A::S(1), A::S(1), A::S(1)]); // ZRANGEBYSCORE with 3 argument(s) of 1 symbolic byte (parser table arity 3)
-    c16_gen_zrangebyscore_4, "C16", experimental, 64, plain, 1200 => c16::diff(b"ZRANGEBYSCORE", &[A::S(1), A::S(1), A::S(1), A::S(1)]); // ZRANGEBYSCORE with 4 argument(s) of 1 symbolic byte (parser table arity 3)
-    c16_gen_zrangebyscore_2, "C16", experimental, 64, plain, 1200 => c16::diff(b"ZRANGEBYSCORE", &[A::S(1), A::S(1)]); // ZRANGEBYSCORE with 2 argument(s) of 1 symbolic byte (parser table arity 3)
-    c16_gen_zrank_2, "C16", thorough, 64, plain, 1200 => c16::diff(b"ZRANK", &[A::S(1), A::S(1)]); // ZRANK with 2 argument(s) of 1 symbolic byte (parser table arity 2)
-    c16_gen_zrank_3, "C16", experimental, 64, plain, 1200 => c16::diff(b"ZRANK", &[A::S(1), A::S(1), A::S(1)]); // ZRANK with 3 argument(s) of 1 symbolic byte (parser table arity 2)
-    c16_gen_zrank_1, "C16", experimental, 64, plain, 1200 => c16::diff(b"ZRANK", &[A::S(1)]); // ZRANK with 1 argument(s) of 1 symbolic byte (parser table arity 2)
-    c16_gen_zrem_2, "C16", thorough, 64, plain, 1200 => c16::diff(b"ZREM", &[A::S(1), A::S(1)]); // ZREM with 2 argument(s) of 1 symbolic byte (parser table arity 2)
-    c16_gen_zrem_3, "C16", experimental, 64, plain, 1200 => c16::diff(b"ZREM", &[A::S(1), A::S(1), A::S(1)]); // ZREM with 3 argument(s) of 1 symbolic byte (parser table arity 2)
-    c16_gen_zrem_1, "C16", experimental, 64, plain, 1200 => c16::diff(b"ZREM", &[A::S(1)]); // ZREM with 1 argument(s) of 1 symbolic byte (parser table arity 2)
-    c16_gen_zrevrange_3, "C16", thorough, 64, plain, 1200 => c16::diff(b"ZREVRANGE", &[A::S(1), A::S(1), A::S(1)]); // ZREVRANGE with 3 argument(s) of 1 symbolic byte (parser table arity 3)
-    c16_gen_zrevrange_4, "C16", experimental, 64, plain, 1200 => c16::diff(b"ZREVRANGE", &[A::S(1), A::S(1), A::S(1), A::S(1)]); // ZREVRANGE with 4 argument(s) of 1 symbolic byte (parser table arity 3)
-    c16_gen_zrevrange_2, "C16", experimental, 64, plain, 1200 => c16::diff(b"ZREVRANGE", &[A::S(1), A::S(1)]); // ZREVRANGE with 2 argument(s) of 1 symbolic byte (parser table arity 3)
-    c16_gen_zscan_2, "C16", thorough, 64, plain, 1200 => c16::diff(b"ZSCAN", &[A::S(1), A::S(1)]); // ZSCAN with 2 argument(s) of 1 symbolic byte (parser table arity 2)
-    c16_gen_zscan_3, "C16", experimental, 64, plain, 1200 => c16::diff(b"ZSCAN", &[A::S(1), A::S(1), A::S(1)]); // ZSCAN with 3 argument(s) of 1 symbolic byte (parser table arity 2)
-    c16_gen_zscan_1, "C16", experimental, 64, plain, 1200 => c16::diff(b"ZSCAN", &[A::S(1)]); // ZSCAN with 1 argument(s) of 1 symbolic byte (parser table arity 2)
-    c16_gen_zscore_2, "C16", thorough, 64, plain, 1200 => c16::diff(b"ZSCORE", &[A::S(1), A::S(1)]); // ZSCORE with 2 argument(s) of 1 symbolic byte (parser table arity 2)
-    c16_gen_zscore_3, "C16", experimental, 64, plain, 1200 => c16::diff(b"ZSCORE", &[A::S(1), A::S(1), A::S(1)]); // ZSCORE with 3 argument(s) of 1 symbolic byte (parser table arity 2)
-    c16_gen_zscore_1, "C16", experimental, 64, plain, 1200 => c16::diff(b"ZSCORE", &[A::S(1)]); // ZSCORE with 1 argument(s) of 1 symbolic byte (parser table arity 2)
+    c16_name_acl, "C16", quick, 64, plain, 900 => c16::diff(b"ACL", &[]); // frame consisting of the command name ACL alone
+    c16_name_append, "C16", thorough, 64, plain, 900 => c16::diff(b"APPEND", &[]); // frame consisting of the command name APPEND alone
+    c16_name_auth, "C16", thorough, 64, plain, 900 => c16::diff(b"AUTH", &[]); // frame consisting of the command name AUTH alone
+    c16_name_client, "C16", thorough, 64, plain, 900 => c16::diff(b"CLIENT", &[]); // frame consisting of the command name CLIENT alone
+    c16_name_command, "C16", thorough, 64, plain, 900 => c16::diff(b"COMMAND", &[]); // frame consisting of the command name COMMAND alone
+    c16_name_config, "C16", thorough, 64, plain, 900 => c16::diff(b"CONFIG", &[]); // frame consisting of the command name CONFIG alone
+    c16_name_dbsize, "C16", thorough, 64, plain, 900 => c16::diff(b"DBSIZE", &[]); // frame consisting of the command name DBSIZE alone
+    c16_name_debug, "C16", thorough, 64, plain, 900 => c16::diff(b"DEBUG", &[]); // frame consisting of the command name DEBUG alone
+    c16_name_decr, "C16", thorough, 64, plain, 900 => c16::diff(b"DECR", &[]); // frame consisting of the command name DECR alone
+    c16_name_decrby, "C16", thorough, 64, plain, 900 => c16::diff(b"DECRBY", &[]); // frame consisting of the command name DECRBY alone
+    c16_name_del, "C16", thorough, 64, plain, 900 => c16::diff(b"DEL", &[]); // frame consisting of the command name DEL alone
+    c16_name_discard, "C16", thorough, 64, plain, 900 => c16::diff(b"DISCARD", &[]); // frame consisting of the command name DISCARD alone
+    c16_name_echo, "C16", thorough, 64, plain, 900 => c16::diff(b"ECHO", &[]); // frame consisting of the command name ECHO alone
+    c16_name_eval, "C16", thorough, 64, plain, 900 => c16::diff(b"EVAL", &[]); // frame consisting of the command name EVAL alone
+    c16_name_evalsha, "C16", thorough, 64, plain, 900 => c16::diff(b"EVALSHA", &[]); // frame consisting of the command name EVALSHA alone
+    c16_name_exec, "C16", thorough, 64, plain, 900 => c16::diff(b"EXEC", &[]); // frame consisting of the command name EXEC alone
+    c16_name_exists, "C16", thorough, 64, plain, 900 => c16::diff(b"EXISTS", &[]); // frame consisting of the command name EXISTS alone
+    c16_name_expire, "C16", thorough, 64, plain, 900 => c16::diff(b"EXPIRE", &[]); // frame consisting of the command name EXPIRE alone
+    c16_name_expireat, "C16", thorough, 64, plain, 900 => c16::diff(b"EXPIREAT", &[]); // frame consisting of the command name EXPIREAT alone
+    c16_name_expiretime, "C16", thorough, 64, plain, 900 => c16::diff(b"EXPIRETIME", &[]); // frame consisting of the command name EXPIRETIME alone
+    c16_name_flushall, "C16", thorough, 64, plain, 900 => c16::diff(b"FLUSHALL", &[]); // frame consisting of the command name FLUSHALL alone
+    c16_name_flushdb, "C16", thorough, 64, plain, 900 => c16::diff(b"FLUSHDB", &[]); // frame consisting of the command name FLUSHDB alone
+    c16_name_function, "C16", thorough, 64, plain, 900 => c16::diff(b"FUNCTION", &[]); // frame consisting of the command name FUNCTION alone
+    c16_name_get, "C16", quick, 64, plain, 900 => c16::diff(b"GET", &[]); // frame consisting of the command name GET alone
+    c16_name_getbit, "C16", thorough, 64, plain, 900 => c16::diff(b"GETBIT", &[]); // frame consisting of the command name GETBIT alone
+    c16_name_getdel, "C16", thorough, 64, plain, 900 => c16::diff(b"GETDEL", &[]); // frame consisting of the command name GETDEL alone
+    c16_name_getex, "C16", thorough, 64, plain, 900 => c16::diff(b"GETEX", &[]); // frame consisting of the command name GETEX alone
+    c16_name_getrange, "C16", thorough, 64, plain, 900 => c16::diff(b"GETRANGE", &[]); // frame consisting of the command name GETRANGE alone
+    c16_name_getset, "C16", thorough, 64, plain, 900 => c16::diff(b"GETSET", &[]); // frame consisting of the command name GETSET alone
+    c16_name_hdel, "C16", thorough, 64, plain, 900 => c16::diff(b"HDEL", &[]); // frame consisting of the command name HDEL alone
+    c16_name_hexists, "C16", thorough, 64, plain, 900 => c16::diff(b"HEXISTS", &[]); // frame consisting of the command name HEXISTS alone
+    c16_name_hget, "C16", thorough, 64, plain, 900 => c16::diff(b"HGET", &[]); // frame consisting of the command name HGET alone
+    c16_name_hgetall, "C16", thorough, 64, plain, 900 => c16::diff(b"HGETALL", &[]); // frame consisting of the command name HGETALL alone
+    c16_name_hincrby, "C16", thorough, 64, plain, 900 => c16::diff(b"HINCRBY", &[]); // frame consisting of the command name HINCRBY alone
+    c16_name_hkeys, "C16", thorough, 64, plain, 900 => c16::diff(b"HKEYS", &[]); // frame consisting of the command name HKEYS alone
+    c16_name_hlen, "C16", thorough, 64, plain, 900 => c16::diff(b"HLEN", &[]); // frame consisting of the command name HLEN alone
+    c16_name_hscan, "C16", thorough, 64, plain, 900 => c16::diff(b"HSCAN", &[]); // frame consisting of the command name HSCAN alone
+    c16_name_hset, "C16", thorough, 64, plain, 900 => c16::diff(b"HSET", &[]); // frame consisting of the command name HSET alone
+    c16_name_hvals, "C16", thorough, 64, plain, 900 => c16::diff(b"HVALS", &[]); // frame consisting of the command name HVALS alone
+    c16_name_incr, "C16", thorough, 64, plain, 900 => c16::diff(b"INCR", &[]); // frame consisting of the command name INCR alone
+    c16_name_incrby, "C16", thorough, 64, plain, 900 => c16::diff(b"INCRBY", &[]); // frame consisting of the command name INCRBY alone
+    c16_name_incrbyfloat, "C16", thorough, 64, plain, 900 => c16::diff(b"INCRBYFLOAT", &[]); // frame consisting of the command name INCRBYFLOAT alone
+    c16_name_info, "C16", thorough, 64, plain, 900 => c16::diff(b"INFO", &[]); // frame consisting of the command name INFO alone
+    c16_name_keys, "C16", thorough, 64, plain, 900 => c16::diff(b"KEYS", &[]); // frame consisting of the command name KEYS alone
+    c16_name_lindex, "C16", thorough, 64, plain, 900 => c16::diff(b"LINDEX", &[]); // frame consisting of the command name LINDEX alone
+    c16_name_llen, "C16", thorough, 64, plain, 900 => c16::diff(b"LLEN", &[]); // frame consisting of the command name LLEN alone
+    c16_name_lmove, "C16", thorough, 64, plain, 900 => c16::diff(b"LMOVE", &[]); // frame consisting of the command name LMOVE alone
+    c16_name_lpop, "C16", thorough, 64, plain, 900 => c16::diff(b"LPOP", &[]); // frame consisting of the command name LPOP alone
+    c16_name_lpush, "C16", quick, 64, plain, 900 => c16::diff(b"LPUSH", &[]); // frame consisting of the command name LPUSH alone
+    c16_name_lrange, "C16", thorough, 64, plain, 900 => c16::diff(b"LRANGE", &[]); // frame consisting of the command name LRANGE alone
+    c16_name_lset, "C16", thorough, 64, plain, 900 => c16::diff(b"LSET", &[]); // frame consisting of the command name LSET alone
+    c16_name_ltrim, "C16", thorough, 64, plain, 900 => c16::diff(b"LTRIM", &[]); // frame consisting of the command name LTRIM alone
+    c16_name_mget, "C16", thorough, 64, plain, 900 => c16::diff(b"MGET", &[]); // frame consisting of the command name MGET alone
+    c16_name_mset, "C16", thorough, 64, plain, 900 => c16::diff(b"MSET", &[]); // frame consisting of the command name MSET alone
+    c16_name_msetnx, "C16", thorough, 64, plain, 900 => c16::diff(b"MSETNX", &[]); // frame consisting of the command name MSETNX alone
+    c16_name_multi, "C16", thorough, 64, plain, 900 => c16::diff(b"MULTI", &[]); // frame consisting of the command name MULTI alone
+    c16_name_object, "C16", thorough, 64, plain, 900 => c16::diff(b"OBJECT", &[]); // frame consisting of the command name OBJECT alone
+    c16_name_persist, "C16", thorough, 64, plain, 900 => c16::diff(b"PERSIST", &[]); // frame consisting of the command name PERSIST alone
+    c16_name_pexpire, "C16", thorough, 64, plain, 900 => c16::diff(b"PEXPIRE", &[]); // frame consisting of the command name PEXPIRE alone
+    c16_name_pexpireat, "C16", thorough, 64, plain, 900 => c16::diff(b"PEXPIREAT", &[]); // frame consisting of the command name PEXPIREAT alone
+    c16_name_pexpiretime, "C16", thorough, 64, plain, 900 => c16::diff(b"PEXPIRETIME", &[]); // frame consisting of the command name PEXPIRETIME alone
+    c16_name_ping, "C16", thorough, 64, plain, 900 => c16::diff(b"PING", &[]); // frame consisting of the command name PING alone
+    c16_name_psetex, "C16", thorough, 64, plain, 900 => c16::diff(b"PSETEX", &[]); // frame consisting of the command name PSETEX alone
+    c16_name_pttl, "C16", thorough, 64, plain, 900 => c16::diff(b"PTTL", &[]); // frame consisting of the command name PTTL alone
+    c16_name_randomkey, "C16", thorough, 64, plain, 900 => c16::diff(b"RANDOMKEY", &[]); // frame consisting of the command name RANDOMKEY alone
+    c16_name_rename, "C16", thorough, 64, plain, 900 => c16::diff(b"RENAME", &[]); // frame consisting of the command name RENAME alone
+    c16_name_renamenx, "C16", thorough, 64, plain, 900 => c16::diff(b"RENAMENX", &[]); // frame consisting of the command name RENAMENX alone
+    c16_name_rpop, "C16", thorough, 64, plain, 900 => c16::diff(b"RPOP", &[]); // frame consisting of the command name RPOP alone
+    c16_name_rpoplpush, "C16", thorough, 64, plain, 900 => c16::diff(b"RPOPLPUSH", &[]); // frame consisting of the command name RPOPLPUSH alone
+    c16_name_rpush, "C16", thorough, 64, plain, 900 => c16::diff(b"RPUSH", &[]); // frame consisting of the command name RPUSH alone
+    c16_name_sadd, "C16", thorough, 64, plain, 900 => c16::diff(b"SADD", &[]); // frame consisting of the command name SADD alone
+    c16_name_scan, "C16", thorough, 64, plain, 900 => c16::diff(b"SCAN", &[]); // frame consisting of the command name SCAN alone
+    c16_name_scard, "C16", thorough, 64, plain, 900 => c16::diff(b"SCARD", &[]); // frame consisting of the command name SCARD alone
+    c16_name_script, "C16", thorough, 64, plain, 900 => c16::diff(b"SCRIPT", &[]); // frame consisting of the command name SCRIPT alone
+    c16_name_select, "C16", thorough, 64, plain, 900 => c16::diff(b"SELECT", &[]); // frame consisting of the command name SELECT alone
+    c16_name_set, "C16", thorough, 64, plain, 900 => c16::diff(b"SET", &[]); // frame consisting of the command name SET alone
+    c16_name_setbit, "C16", thorough, 64, plain, 900 => c16::diff(b"SETBIT", &[]); // frame consisting of the command name SETBIT alone
+    c16_name_setex, "C16", quick, 64, plain, 900 => c16::diff(b"SETEX", &[]); // frame consisting of the command name SETEX alone
+    c16_name_setnx, "C16", thorough, 64, plain, 900 => c16::diff(b"SETNX", &[]); // frame consisting of the command name SETNX alone
+    c16_name_setrange, "C16", thorough, 64, plain, 900 => c16::diff(b"SETRANGE", &[]); // frame consisting of the command name SETRANGE alone
+    c16_name_sismember, "C16", thorough, 64, plain, 900 => c16::diff(b"SISMEMBER", &[]); // frame consisting of the command name SISMEMBER alone
+    c16_name_smembers, "C16", thorough, 64, plain, 900 => c16::diff(b"SMEMBERS", &[]); // frame consisting of the command name SMEMBERS alone
+    c16_name_sort, "C16", thorough, 64, plain, 900 => c16::diff(b"SORT", &[]); // frame consisting of the command name SORT alone
+    c16_name_spop, "C16", thorough, 64, plain, 900 => c16::diff(b"SPOP", &[]); // frame consisting of the command name SPOP alone
+    c16_name_srem, "C16", thorough, 64, plain, 900 => c16::diff(b"SREM", &[]); // frame consisting of the command name SREM alone
+    c16_name_strlen, "C16", thorough, 64, plain, 900 => c16::diff(b"STRLEN", &[]); // frame consisting of the command name STRLEN alone
+    c16_name_substr, "C16", thorough, 64, plain, 900 => c16::diff(b"SUBSTR", &[]); // frame consisting of the command name SUBSTR alone
+    c16_name_time, "C16", thorough, 64, plain, 900 => c16::diff(b"TIME", &[]); // frame consisting of the command name TIME alone
+    c16_name_ttl, "C16", thorough, 64, plain, 900 => c16::diff(b"TTL", &[]); // frame consisting of the command name TTL alone
+    c16_name_type, "C16", thorough, 64, plain, 900 => c16::diff(b"TYPE", &[]); // frame consisting of the command name TYPE alone
+    c16_name_unlink, "C16", thorough, 64, plain, 900 => c16::diff(b"UNLINK", &[]); // frame consisting of the command name UNLINK alone
+    c16_name_unwatch, "C16", thorough, 64, plain, 900 => c16::diff(b"UNWATCH", &[]); // frame consisting of the command name UNWATCH alone
+    c16_name_wait, "C16", thorough, 64, plain, 900 => c16::diff(b"WAIT", &[]); // frame consisting of the command name WAIT alone
+    c16_name_watch, "C16", thorough, 64, plain, 900 => c16::diff(b"WATCH", &[]); // frame consisting of the command name WATCH alone
+    c16_name_zadd, "C16", thorough, 64, plain, 900 => c16::diff(b"ZADD", &[]); // frame consisting of the command name ZADD alone
+    c16_name_zcard, "C16", thorough, 64, plain, 900 => c16::diff(b"ZCARD", &[]); // frame consisting of the command name ZCARD alone
+    c16_name_zcount, "C16", thorough, 64, plain, 900 => c16::diff(b"ZCOUNT", &[]); // frame consisting of the command name ZCOUNT alone
+    c16_name_zrange, "C16", thorough, 64, plain, 900 => c16::diff(b"ZRANGE", &[]); // frame consisting of the command name ZRANGE alone
+    c16_name_zrangebyscore, "C16", thorough, 64, plain, 900 => c16::diff(b"ZRANGEBYSCORE", &[]); // frame consisting of the command name ZRANGEBYSCORE alone
+    c16_name_zrank, "C16", thorough, 64, plain, 900 => c16::diff(b"ZRANK", &[]); // frame consisting of the command name ZRANK alone
+    c16_name_zrem, "C16", thorough, 64, plain, 900 => c16::diff(b"ZREM", &[]); // frame consisting of the command name ZREM alone
+    c16_name_zrevrange, "C16", thorough, 64, plain, 900 => c16::diff(b"ZREVRANGE", &[]); // frame consisting of the command name ZREVRANGE alone
+    c16_name_zscan, "C16", thorough, 64, plain, 900 => c16::diff(b"ZSCAN", &[]); // frame consisting of the command name ZSCAN alone
+    c16_name_zscore, "C16", thorough, 64, plain, 900 => c16::diff(b"ZSCORE", &[]); // frame consisting of the command name ZSCORE alone
+    c16_gen_get_1, "C16", experimental, 64, plain, 1200 => c16::diff(b"GET", &[A::S(1)]); // GET with 1 symbolic one-byte argument(s): no verdict in 20 min
+    c16_gen_setex_3, "C16", experimental, 64, plain, 1200 => c16::diff(b"SETEX", &[A::S(1), A::S(1), A::S(1)]); // SETEX with 3 symbolic one-byte argument(s): no verdict in 20 min
+    c16_gen_expire_2, "C16", experimental, 64, plain, 1200 => c16::diff(b"EXPIRE", &[A::S(1), A::S(1)]); // EXPIRE with 2 symbolic one-byte argument(s): no verdict in 20 min
+    c16_gen_acl_1, "C16", experimental, 64, plain, 1200 => c16::diff(b"ACL", &[A::S(1)]); // ACL with 1 symbolic one-byte argument(s): no verdict in 20 min
 }
